@@ -166,16 +166,22 @@ class CaseTimeout(Exception):
 
 
 def guarded(fn, seconds: float = 2.0):
-    """Run fn() under an interval timer: code under test that loops forever becomes a CaseTimeout, not a hung check."""
+    """Run fn() under interval timers: code under test that loops forever becomes a CaseTimeout, not a hung check.
+    `seconds` is CPU time of this process (a loaded machine that stalls the process is not a hang of the code under test);
+    a wall-clock limit of 15 x seconds (at least 30 s) catches code that blocks without computing."""
     import signal
 
     def _raise(*a):
-        raise CaseTimeout(f"no result within {seconds}s")
+        raise CaseTimeout(f"no result within {seconds}s of CPU time / {max(30.0, 15 * seconds)}s of wall time")
 
     old = signal.signal(signal.SIGALRM, _raise)
-    signal.setitimer(signal.ITIMER_REAL, seconds)
+    oldp = signal.signal(signal.SIGPROF, _raise)
+    signal.setitimer(signal.ITIMER_REAL, max(30.0, 15 * seconds))
+    signal.setitimer(signal.ITIMER_PROF, seconds)
     try:
         return fn()
     finally:
+        signal.setitimer(signal.ITIMER_PROF, 0)
         signal.setitimer(signal.ITIMER_REAL, 0)
+        signal.signal(signal.SIGPROF, oldp)
         signal.signal(signal.SIGALRM, old)
